@@ -68,18 +68,41 @@ def main():
         finally:
             sh("git -C /repo worktree remove --force %s" % wt)
             shutil.rmtree(wt, ignore_errors=True)
-    # the checks, against /repo itself
-    rc, out, _ = sh("git -C /repo diff --quiet")
-    assert rc == 0, "/repo is dirty"
-    rc, out, _ = sh("git -C /repo apply %s" % patch)
-    assert rc == 0, out
-    try:
-        envs = ""
-        if scen:
-            envs = "VERIF_SCEN=%s " % scen
-        rc, out, dt = sh("%s./check %s %s" % (envs, tier, prop), cwd="/verif", timeout=3600)
-    finally:
-        sh("git -C /repo checkout -- . && git -C /repo clean -fdq")
+    envs = ""
+    if scen:
+        envs = "VERIF_SCEN=%s " % scen
+    if "--in-repo" in args:
+        # the checks, against /repo itself (apply, run, undo)
+        rc, out, _ = sh("git -C /repo diff --quiet")
+        assert rc == 0, "/repo is dirty"
+        rc, out, _ = sh("git -C /repo apply %s" % patch)
+        assert rc == 0, out
+        try:
+            rc, out, dt = sh("%s./check %s %s" % (envs, tier, prop), cwd="/verif", timeout=3600)
+        finally:
+            sh("git -C /repo checkout -- . && git -C /repo clean -fdq")
+    else:
+        # parallel-safe: a private copy of /verif and a scratch worktree with
+        # the patch applied (VERIF_REPO); /repo itself is not touched
+        wt2 = "/tmp/ev/" + sid + "_chk"
+        vcopy = "/tmp/ev/" + sid + "_verif"
+        sh("git -C /repo worktree remove --force %s" % wt2)
+        shutil.rmtree(wt2, ignore_errors=True)
+        shutil.rmtree(vcopy, ignore_errors=True)
+        rc, out, _ = sh("git -C /repo worktree add -q --detach %s HEAD" % wt2)
+        assert rc == 0, out
+        try:
+            rc, out, _ = sh("git apply %s" % patch, cwd=wt2)
+            assert rc == 0, out
+            sh("rsync -a --exclude bin --exclude .work --exclude .git --exclude replays --exclude evidence --exclude seeded /verif/ %s/" % vcopy)
+            rc, out, dt = sh("%sVERIF_REPO=%s ./check %s %s" % (envs, wt2, tier, prop), cwd=vcopy, timeout=3600)
+            # keep the replay files of this evaluation
+            os.makedirs("/verif/seeded/%s/replays" % sid, exist_ok=True)
+            sh("cp %s/replays/*.json /verif/seeded/%s/replays/ 2>/dev/null; true" % (vcopy, sid))
+        finally:
+            sh("git -C /repo worktree remove --force %s" % wt2)
+            shutil.rmtree(wt2, ignore_errors=True)
+            shutil.rmtree(vcopy, ignore_errors=True)
     lines = [l for l in out.splitlines() if l.startswith(("VIOLATION", "KNOWN", "HARNESS", "  class", "check "))]
     report["check_cmd"] = "%s./check %s %s" % (("VERIF_SCEN=%s " % scen) if scen else "", tier, prop)
     report["check_exit"] = rc
